@@ -173,13 +173,25 @@ class Gen:
         """lines of a @py block: a failing line only in first position (in-place effects of earlier
         lines would survive the failure through aliasing, which Sem does not model)"""
         first = self.stmt(ints)
-        return [first] + [self.stmt(None, no_fault=True) for _ in range(n - 1)]
+        lines = [first] + [self.stmt(None, no_fault=True) for _ in range(n - 1)]
+        # an in-place mutation followed by a line that fails (e.g. arithmetic on a variable that became None) would
+        # survive the failure in Python but not in the model: keep at most one mutating line, and keep it last
+        def mutates(l):
+            return ".append(" in l or "+= [" in l or l.startswith(("d[", "nest["))
+        mut = [l for l in lines if mutates(l)]
+        return [l for l in lines if not mutates(l)] + mut[-1:]
 
     def stmt(self, ints=None, no_fault=False):
         r = self.r
         if not no_fault and self.p("stmt_faults"):
             self.count("fault_stmt")
             return r.choice(["a = nope", "xs[99] = 1", "b = 1 % 0", "s = s + 1", "zz.append(1)", "c = d['zz']"])
+        if self.p("alias") and getattr(self, "loop_depth", 0) == 0 and r.random() < 0.45:
+            # variables sharing one object (real-code-only families): mutate through one name, read through another
+            return r.choice(["xs.append(len(ys))", "ys.append(1)", "nest['inner'].append(2)", "hero['hp'] = hero['hp'] - 1",
+                             "party[0]['hp'] = party[0]['hp'] + 2 if party else 0", "ys = xs", "d['lst'] = ys", "xs.append(3)",
+                             "t = str(party[0]['hp']) if party else 'none'", "s = str(nest['inner']) + str(ys) + str(hero)",
+                             "ys = list(ys)"])
         k = r.randint(0, 13)
         if getattr(self, "loop_depth", 0) > 0 and k in (7, 8, 11, 12, 13):
             k = 3      # no list growth inside loops: repeated visits would grow lists exponentially
@@ -281,6 +293,8 @@ class Gen:
             cond = self.bool_expr(0, ints)
             if self.p("faults"):
                 cond = r.choice(["nope", "xs[99] > 1"])
+        if cond is not None and r.random() < 0.15:
+            cond = r.choice([" ", "  ", "\t"]) + cond + r.choice(["", " "])       # blanks inside the braces are kept by the compiler
         return {"k": "choice", "sticky": not self.p("one_time"), "cond": cond, "text": text,
                 "target": tgt, "args": "" if join else self.args_for(tgt, ints),
                 "tags": [r.choice(["c1", "c2"])] if self.p("tags") else [], "block": []}
@@ -383,6 +397,10 @@ class Gen:
                 f"d = {{'k': {r.randint(0, 5)}, 'm': {r.randint(0, 5)}}}", "hlog = []", "z = None",
                 f"nest = {{'inner': [{r.randint(0, 5)}], 'k': {r.randint(0, 5)}, 'deep': {{'l': []}}}}"]]
             items += [{"k": "stmt", "code": f"n_{n} = 0", "comment": None} for n in self.names + self.hook_names]
+            if self.f.get("alias", 0) > 0:
+                for code, pr in (("ys = xs", 0.6), ("nest['inner'] = xs", 0.5), ("hero = {'hp': 7}", 1.0), ("party = [hero]", 0.8), ("d['lst'] = ys", 0.4)):
+                    if r.random() < pr:
+                        items.append({"k": "stmt", "code": code, "comment": None})
         items.append({"k": "stmt", "code": f"n_{name} = n_{name} + 1", "comment": None})
         if r.random() < self.f.get("probes", 0.5):
             # probe: what the passage sees as its parameter scope on entry
@@ -429,11 +447,16 @@ class Gen:
                     self.njc = getattr(self, "njc", 0) + 1
                     ch["block"] = [{"k": "stmt", "code": f"jc_{self.njc} = jc_{self.njc} + 1", "comment": None}] + self.join_block(ints)
                     items.append(ch)
+                    if r.random() < 0.15:
+                        # an un-indented line right after the choice's block: it belongs to the section, not to the block
+                        items.append(self.line(ints) if r.random() < 0.6 else {"k": "stmt", "code": self.stmt(ints), "comment": None})
                 if r.random() < 0.5:
                     items.append(self.choice(idx, ints))
                 items.append({"k": "join"})
                 for _ in range(r.randint(0, 2)):
                     items.append(self.line(ints) if r.random() < 0.7 else {"k": "stmt", "code": self.stmt(ints), "comment": None})
+                if r.random() < 0.3 and self.p("conds"):
+                    items.append(self.if_block(idx, 1, ints))       # may hold a jump: a section after a marker that jumps away
             for _ in range(r.randint(0, 2)):
                 items.append(self.choice(idx, ints))
         else:
@@ -444,6 +467,9 @@ class Gen:
             if t is not None:
                 self.count("top_jump")
                 items.append({"k": "jump", "target": t, "args": self.args_for(t, ints)})
+                t2 = self.target(idx, True)
+                if t2 is not None and r.random() < 0.25:
+                    items.append({"k": "jump", "target": t2, "args": self.args_for(t2, ints)})     # never reached: the first jump wins
         return {"name": name, "params": params, "tags": ["ptag"] if self.p("tags") else [], "items": items}
 
     def join_block(self, ints):
@@ -579,11 +605,11 @@ def print_items(items, indent, style, out, top=False, in_join=False):
             if style.get("legacy"):
                 out.append(pad + "<<py")
                 out.extend(pad + "  " + l for l in it["lines"])
-                out.append(pad + ">>")
+                out.append(pad + ">>" + _cmt(style, "endpy"))
             else:
                 out.append(pad + "@py:" + _cmt(style, "py"))
                 out.extend(((pad + "    ") if style.get("py_indent") else "") + l for l in it["lines"])
-                out.append(pad + "@endpy")
+                out.append(pad + "@endpy" + _cmt(style, "endpy"))
         elif k == "if":
             for i, (cond, body) in enumerate(it["branches"]):
                 if style.get("legacy"):
